@@ -142,7 +142,7 @@ func has(ss []string, s string) bool {
 	return false
 }
 
-var recipeNames = []string{"plain", "s18", "dup", "blacklist", "infolie", "retrysnap", "vanish", "spfault", "many", "noise", "fooled", "comeback", "orphan", "race", "refetch", "formats"}
+var recipeNames = []string{"plain", "s18", "dup", "blacklist", "infolie", "retrysnap", "vanish", "spfault", "many", "noise", "fooled", "comeback", "orphan", "race", "refetch", "formats", "ghost"}
 
 // genScenario draws scenario number idx.
 func genScenario(r *rand.Rand, verifSeed, sub int64, stream string, idx int) *Scenario {
@@ -157,7 +157,7 @@ func genScenario(r *rand.Rand, verifSeed, sub int64, stream string, idx int) *Sc
 	}
 	// recipes: the first few cases walk through the list so that every tier sees each one
 	nrec := 1 + r.Intn(3)
-	if p := recipeNames[idx%len(recipeNames)]; p == "orphan" || p == "refetch" || p == "formats" {
+	if p := recipeNames[idx%len(recipeNames)]; p == "orphan" || p == "refetch" || p == "formats" || p == "ghost" {
 		nrec = 1 // a fixed cast of peers: kept free of other recipes when it is the primary one
 	}
 	if recipeNames[idx%len(recipeNames)] == "race" {
@@ -178,6 +178,9 @@ func genScenario(r *rand.Rand, verifSeed, sub int64, stream string, idx int) *Sc
 	n1 := uint32(2 + r.Intn(5))
 	if recipeNames[idx%len(recipeNames)] == "refetch" {
 		n1 = uint32(1 + (idx/len(recipeNames))%8) // 1 .. 8 chunks
+	}
+	if recipeNames[idx%len(recipeNames)] == "ghost" {
+		n1 = uint32(2 + r.Intn(3))
 	}
 	addTrue := func(h uint64, f uint32, n uint32) int {
 		s.Catalog = append(s.Catalog, SnapSpec{Height: h, Format: f, Chunks: n, Kind: "true",
@@ -596,6 +599,38 @@ func genScenario(r *rand.Rand, verifSeed, sub int64, stream string, idx int) *Sc
 		s.Actions = append(s.Actions, Action{At: "apphash", Call: -1, Kind: "readv", Peer: 1, Snap: -1})
 		if r.Intn(2) == 0 {
 			s.Actions = append(s.Actions, Action{At: "offer", Call: -1, Kind: "readv", Peer: 1, Snap: -1})
+		}
+	}
+	if rc("ghost") && s.Recipes[0] == "ghost" {
+		// peer 0 advertises the snapshot and delivers a chunk that waits in the queue, then disconnects;
+		// afterwards the app names it in reject_senders; it reconnects under the same ID, advertises a new
+		// snapshot and is willing to serve it: nothing of it may reach the app any more
+		variant := (idx / len(recipeNames)) % 3
+		s.Discovery = "gate0"
+		s.Catalog = s.Catalog[:1]
+		lesser := addTrue(3+uint64(r.Intn(int(s1)-3)), 1, uint32(1+r.Intn(2)))
+		fresh := addTrue(s1, 2, uint32(1+r.Intn(3))) // only the returning peer will have it
+		s.Peers = []PeerSpec{
+			{Default: "honest", Adverts: [][]int{{main}}},
+			{Default: "honest", Adverts: [][]int{{main, lesser}}},
+		}
+		if r.Intn(2) == 0 {
+			s.Peers = append(s.Peers, PeerSpec{Default: "honest", Adverts: [][]int{{main}}})
+		}
+		np = len(s.Peers)
+		s.App.SmartReject = false
+		s.App.OfferBySnap = map[int]string{lesser: "REJECT"}
+		s.Actions = append(s.Actions,
+			Action{At: "offer", Call: 0, Kind: "push", Peer: 0, Rel: 1, Bytes: []string{"right", "wrong"}[r.Intn(2)], Count: 1},
+			Action{At: "offer", Call: 0, Kind: "stop", Peer: 0})
+		verdict := []string{"REJECT_SNAPSHOT", "ACCEPT", "RETRY"}[variant]
+		s.App.ApplyScript[0] = ApplyOverride{Result: verdict, RejectPeers: []int{0}}
+		if verdict == "REJECT_SNAPSHOT" {
+			s.Actions = append(s.Actions, Action{At: "apphash", Call: -1, Kind: "reconnect", Peer: 0, Snap: fresh})
+		} else {
+			s.Actions = append(s.Actions, Action{At: "apply", Call: 1, Kind: "reconnect", Peer: 0, Snap: fresh})
+			s.App.ApplyScript[2] = ApplyOverride{Result: "REJECT_SNAPSHOT"}
+			s.Actions = append(s.Actions, Action{At: "apphash", Call: -1, Kind: "readv", Peer: 0, Snap: fresh})
 		}
 	}
 	if rc("spfault") {
